@@ -158,14 +158,32 @@ def transferTo (ty : Ty) (v : Val) : M Val := do
 def checkLoss (old : Val) : M Unit := fun s =>
   if isResVal s.heap old then ⟨.userErr .resourceLoss, s, []⟩ else ⟨.ok (), s, []⟩
 
+/-- dynamic type test used by `load` / `copy` / `borrow` / `check` (`IsSubTypeOfSemaType` on the
+    cell's static type; scalars by kind) -/
+def conforms (h : Heap) : Val → Ty → Bool
+  | _, .anyStruct => true
+  | .int k _, .int k' => k == k'
+  | .bool _, .bool => true
+  | .str _, .string => true
+  | .nil, .opt _ => true
+  | .some v, .opt t => conforms h v t
+  | .some _, _ => false
+  | v, .opt t => conforms h v t
+  | .ptr id, t =>
+    match h[id]? with
+    | some c => (c.ty == t) || (t == .anyRes && c.res)
+    | none => false
+  | _, _ => false
+
 /-- dereference: a reference is checked for validity on every use -/
 def deref (v : Val) : M Val := fun s =>
   match v with
   | .ref t g => if refValid s.heap t g then ⟨.ok t, s, []⟩ else ⟨.userErr .invalidatedRef, s, []⟩
   | .sref path ty =>
+    -- `StorageReferenceValue.dereference`: the value currently at the path, if it has the borrow type
     match (s.storage.find? (·.1 == path)).map (·.2) with
-    | some sv => ⟨.ok sv, s, []⟩          -- type was checked at borrow; the generators keep it stable
-    | none => let _ := ty; ⟨.userErr .dereference, s, []⟩
+    | some sv => if conforms s.heap sv ty then ⟨.ok sv, s, []⟩ else ⟨.userErr .dereference, s, []⟩
+    | none => ⟨.userErr .dereference, s, []⟩
   | other => ⟨.ok other, s, []⟩
 
 /-! ### operators (scalars) -/
@@ -324,23 +342,6 @@ def bindParams : List Param → List Val → Option Env
   | [], [] => some []
   | p :: ps, v :: vs => (bindParams ps vs).map ((p.name, box p.ty v) :: ·)
   | _, _ => none
-
-/-- dynamic type test used by `load` / `copy` / `borrow` / `check` (`IsSubTypeOfSemaType` on the
-    cell's static type; scalars by kind) -/
-def conforms (h : Heap) : Val → Ty → Bool
-  | _, .anyStruct => true
-  | .int k _, .int k' => k == k'
-  | .bool _, .bool => true
-  | .str _, .string => true
-  | .nil, .opt _ => true
-  | .some v, .opt t => conforms h v t
-  | .some _, _ => false
-  | v, .opt t => conforms h v t
-  | .ptr id, t =>
-    match h[id]? with
-    | some c => (c.ty == t) || (t == .anyRes && c.res)
-    | none => false
-  | _, _ => false
 
 def storageGet (path : String) : M (Option Val) := fun s =>
   ⟨.ok ((s.storage.find? (·.1 == path)).map (·.2)), s, []⟩
@@ -817,13 +818,10 @@ def exec : Nat → Ty → Stmt → M Flow
       writeLoc l v'
       declVar x old'
       pure .normal
-    | .assign force target ty e => do
+    -- `<-!` is evaluated like `<-` / `=` (`visitAssignment` ignores the transfer operation): a non-nil
+    -- resource in the target is caught by the setter's loss guard
+    | .assign _ target ty e => do
       let l ← evalTarget n target
-      if force then do
-        let cur ← readLoc l
-        (match cur with
-         | .nil => pure ()
-         | _ => M.userErr .forceAssignNonNil)
       let v ← eval n e
       let v' ← transferTo ty v
       writeLoc l v'
